@@ -102,7 +102,7 @@ func runCheck(args []string) int {
 		return 2
 	}
 	eng.tier = *tier
-	timeout := 10
+	timeout := 15
 	if *tier == "thorough" {
 		timeout = 60
 	}
@@ -127,7 +127,7 @@ func runCheck(args []string) int {
 	outDir := filepath.Join(*verif, "out", prop+os.Getenv("VERIF_OUT_TAG")) // the tag keeps parallel selftest workers apart
 	os.RemoveAll(outDir)
 	eng.solveAll(outDir, timeout, 16)
-	solveLemmas(eng, lemmaObs, outDir, timeout*2, *tier == "thorough")
+	solveLemmas(eng, lemmaObs, outDir, map[bool]int{false: timeout * 4, true: timeout * 2}[*tier == "thorough"], *tier == "thorough") // spec lemmas (nonlinear arithmetic) get generous time: they change only when the spec files do
 	all := append(append([]*Obligation{}, eng.obligs...), lemmaObs...)
 
 	// extra engines
